@@ -86,6 +86,7 @@ type State struct {
 	onceDone map[string]bool
 	expectPanic bool
 	ghost    map[string]Value
+	groups   map[string]bool
 	accesses []Access // C17
 	thread   int
 	locks    []string
@@ -153,6 +154,10 @@ func (st *State) clone(newID int) *State {
 	n.ghost = make(map[string]Value, len(st.ghost))
 	for k, v := range st.ghost {
 		n.ghost[k] = v
+	}
+	n.groups = make(map[string]bool, len(st.groups))
+	for k, v := range st.groups {
+		n.groups[k] = v
 	}
 	n.inputs = append([]InputRec(nil), st.inputs...)
 	n.reached = append([]string(nil), st.reached...)
